@@ -69,11 +69,13 @@ def validated (info : List (String × Val)) : Except LoadErr (List (String × Va
   | .err k => .error (.invalid k)
   | .panic => .error .panic
 
+def tableOf (fmt : Nat) : List (String × String × Conv) := if fmt = 1 then Gen.v1Table else Gen.v2Table
+def typesOf (fmt : Nat) : List (String × Ty) := if fmt = 1 then Gen.v1Types else Gen.v2Types
+
 /-- `FontInfo::from_file` for format 1 / 2 -/
 def fromFile (fmt : Nat) (attrs : List (String × Val)) : Except LoadErr (List (String × Val)) :=
-  let (table, types) := if fmt = 1 then (Gen.v1Table, Gen.v1Types) else (Gen.v2Table, Gen.v2Types)
-  if !allTyped types attrs then .error .parse else
-  match convertAll tables table attrs with
+  if !allTyped (typesOf fmt) attrs then .error .parse else
+  match convertAll tables (tableOf fmt) attrs with
   | .error e => .error (.conv e)
   | .ok info => validated info
 
